@@ -11,9 +11,14 @@
 //!   join_f5      INNER join on a DATE / BOOLEAN key (C08-F5)
 //!   agg          GROUP BY one or two NULL-free keys with COUNT / SUM / MIN / MAX
 //!   agg_nullkeys the same over keys holding NULLs (C08-F6 = the GROUP BY NULL-key defects C21-F2/F4 seen through the path switch); neutraliser = WHERE keys IS NOT NULL
+//!   spill_*      kind agg-spill: aggregations the fused streaming path does NOT serve, so that under a small limit the input is hash-partitioned (64 ways) and
+//!                aggregated partition by partition (SpillableHashAggregateExec::aggregate_with_spilling → aggregate_batches_external): spill_distinct (SELECT DISTINCT),
+//!                spill_union (UNION), spill_cdist (GROUP BY + COUNT/SUM(DISTINCT)), spill_groups (GROUP BY with 100+ groups); own tables g0/g1 with BIGINT / VARCHAR /
+//!                DATE / BOOLEAN / DOUBLE key columns at 10-50 % NULLs, 1-3 key columns, 170-400 rows in 1-6 batches; limits 64 … 16384 bytes and unlimited.
+//!                The harness observes per run whether an operator took its spill path (the engine creates <TMPDIR>/query_engine_spill only there): impl.spilled.
 use crate::common::*;
 use crate::fams::fam_sql::sqlgen::catalog::{gen_catalog, CatOpts, Catalog, TableSpec};
-use crate::fams::fam_sql::sqlgen::exec::{run_many, ExecCfg};
+use crate::fams::fam_sql::sqlgen::exec::{run, run_many, ExecCfg};
 use crate::fams::fam_sql::sqlgen::{ColTy, Val};
 use crate::rng::Rng;
 use serde_json::{json, Value};
@@ -159,6 +164,115 @@ fn agg_stmt(r: &mut Rng, t: &TableSpec, nullkeys: bool) -> Option<Stmt> {
     Some(Stmt { sql, plan, stratum: if nullkeys { "agg_nullkeys" } else { "agg" }, kind: "agg", neutral })
 }
 
+
+/// tables of the agg-spill strata: g0(id, k BIGINT, s VARCHAR, d DATE, b BOOLEAN, f DOUBLE, v BIGINT, w BIGINT wide domain) and g1 (same types, names …x)
+fn spill_catalog(r: &mut Rng) -> Catalog {
+    use crate::fams::fam_sql::sqlgen::catalog::{small_value, ColSpec};
+    let tys = [("k", ColTy::I64), ("s", ColTy::Str), ("d", ColTy::Date), ("b", ColTy::Bool), ("f", ColTy::F64), ("v", ColTy::I64), ("w", ColTy::I64)];
+    let mut tables = vec![];
+    for t in 0..2usize {
+        let sfx = if t == 0 { "" } else { "x" };
+        let mut cols = vec![ColSpec { name: format!("id{}", sfx), cty: ColTy::I64, null_pct: 0, boundary: false, special: false, unique: true }];
+        for (nm, cty) in tys.iter() {
+            let null_pct = match *nm { "v" => *r.pick(&[0u8, 10]), "w" => *r.pick(&[10u8, 20, 30]), _ => *r.pick(&[10u8, 20, 30, 50]) };
+            cols.push(ColSpec { name: format!("{}{}", nm, sfx), cty: *cty, null_pct, boundary: false, special: false, unique: false });
+        }
+        let n = if t == 0 { 170 + r.below(231) as usize } else { 30 + r.below(150) as usize };
+        let doms: Vec<u64> = cols.iter().map(|_| *r.pick(&[3u64, 6, 8, 20, 40])).collect();
+        let mut ids: Vec<i64> = (0..n as i64).collect(); r.shuffle(&mut ids);
+        let mut rows = Vec::with_capacity(n);
+        for i in 0..n {
+            let mut row = vec![Val::I(ids[i])];
+            for (c, cs) in cols.iter().enumerate().skip(1) {
+                let v = if r.below(100) < cs.null_pct as u64 { Val::Null }
+                    else if cs.name.starts_with('w') { Val::I(r.below(8 * n as u64) as i64) }
+                    else { small_value(r, cs.cty, doms[c]) };
+                row.push(v);
+            }
+            rows.push(row);
+        }
+        let k = 1 + r.below(6) as usize;
+        let mut cuts: Vec<usize> = (0..k - 1).map(|_| r.below(n as u64 + 1) as usize).collect();
+        cuts.push(0); cuts.push(n); cuts.sort();
+        let cuts: Vec<usize> = cuts.windows(2).map(|w| w[1] - w[0]).collect();
+        tables.push(TableSpec { name: format!("g{}", t), cols, rows, cuts });
+    }
+    Catalog { tables }
+}
+
+fn cols_bytes(t: &TableSpec, cs: &[usize]) -> usize {
+    let per_row: usize = cs.iter().map(|&c| match t.cols[c].cty { ColTy::I64 | ColTy::F64 => 9, ColTy::I32 | ColTy::Date => 5, ColTy::Bool => 1, ColTy::Str => 8 }).sum();
+    (t.rows.len() * per_row).max(64)
+}
+
+/// kind agg-spill (see the header).  Returns the statement and the estimated bytes of the aggregation input.
+fn aggspill_stmt(r: &mut Rng, cat: &Catalog, stratum: &'static str) -> Option<(Stmt, usize)> {
+    let t = &cat.tables[0];
+    let keyable: Vec<usize> = (1..=5).collect(); // k s d b f
+    let (vcol, wcol) = (6usize, 7usize);
+    let mut pool = keyable.clone(); r.shuffle(&mut pool);
+    // GROUP BY over a BOOLEAN key is refused by the engine also without a limit ("Group by type not supported: Boolean"): kept rare (a panic would still be seen)
+    if stratum == "spill_cdist" && !r.chance(1, 8) { pool.retain(|&c| t.cols[c].cty != ColTy::Bool); }
+    let nk = *r.pick(&[1usize, 1, 2, 2, 3]);
+    let mut keys: Vec<usize> = pool.into_iter().take(nk).collect();
+    let name = |c: usize| t.cols[c].name.clone();
+    let colj = |cs: &[usize]| -> Vec<Value> { cs.iter().map(|&c| json!({"col": c})).collect() };
+    match stratum {
+        "spill_distinct" => {
+            let sel = keys.iter().map(|&c| name(c)).collect::<Vec<_>>().join(", ");
+            let sql = format!("SELECT DISTINCT {} FROM {}", sel, t.name);
+            let plan = json!({"distinct": {"project": {"es": colj(&keys), "q": {"scan": 0}}}});
+            Some((Stmt { sql, plan, stratum, kind: "agg-spill", neutral: None }, cols_bytes(t, &keys)))
+        }
+        "spill_union" => {
+            let u = &cat.tables[1];
+            let l = keys.iter().enumerate().map(|(i, &c)| format!("{} AS q{}", name(c), i)).collect::<Vec<_>>().join(", ");
+            let rr = keys.iter().enumerate().map(|(i, &c)| format!("{} AS q{}", u.cols[c].name, i)).collect::<Vec<_>>().join(", ");
+            let sql = format!("SELECT {} FROM {} UNION SELECT {} FROM {}", l, t.name, rr, u.name);
+            let plan = json!({"setop": {"op": "union", "all": false, "l": {"project": {"es": colj(&keys), "q": {"scan": 0}}}, "r": {"project": {"es": colj(&keys), "q": {"scan": 1}}}}});
+            Some((Stmt { sql, plan, stratum, kind: "agg-spill", neutral: None }, cols_bytes(t, &keys) + cols_bytes(u, &keys)))
+        }
+        "spill_cdist" | "spill_groups" => {
+            let mut sel: Vec<String> = vec![]; let mut aggs: Vec<Value> = vec![]; let mut used: Vec<usize> = vec![];
+            if stratum == "spill_groups" {
+                // 100+ groups: the wide column (alone or with further keys)
+                keys.truncate(nk.min(2)); if r.chance(1, 2) { keys.insert(0, wcol); } else { keys = vec![wcol]; }
+                sel.push("COUNT(*)".into()); aggs.push(json!({"fn": "count_star"}));
+                for &(f, sqlf) in &[("sum", "SUM"), ("min", "MIN"), ("max", "MAX"), ("count", "COUNT")] {
+                    if r.chance(1, 2) { sel.push(format!("{}({})", sqlf, name(vcol))); aggs.push(json!({"fn": f, "arg": {"col": vcol}})); used.push(vcol); }
+                }
+                let mut seen = std::collections::HashSet::new();
+                for row in &t.rows { seen.insert(keys.iter().map(|&c| format!("{:?}", row[c])).collect::<Vec<_>>().join("|")); }
+                if seen.len() < 100 { return None; }
+            } else {
+                let darg = *r.pick(&[vcol, vcol, 1usize, 2]); // COUNT(DISTINCT v | k | s)
+                sel.push(format!("COUNT(DISTINCT {})", name(darg))); aggs.push(json!({"fn": "count", "arg": {"col": darg}, "distinct": true})); used.push(darg);
+                if r.chance(1, 3) { sel.push(format!("SUM(DISTINCT {})", name(vcol))); aggs.push(json!({"fn": "sum", "arg": {"col": vcol}, "distinct": true})); used.push(vcol); }
+                if r.chance(1, 2) { sel.push("COUNT(*)".into()); aggs.push(json!({"fn": "count_star"})); }
+                if r.chance(1, 3) { sel.push(format!("MAX({})", name(vcol))); aggs.push(json!({"fn": "max", "arg": {"col": vcol}})); used.push(vcol); }
+            }
+            let mut all: Vec<String> = keys.iter().map(|&c| name(c)).collect(); all.extend(sel);
+            let aliased = all.iter().enumerate().map(|(i, s)| format!("{} AS q{}", s, i)).collect::<Vec<_>>().join(", ");
+            let group = keys.iter().map(|&c| name(c)).collect::<Vec<_>>().join(", ");
+            let sql = format!("SELECT {} FROM {} GROUP BY {}", aliased, t.name, group);
+            let plan = json!({"agg": {"keys": colj(&keys), "aggs": aggs, "q": {"scan": 0}}});
+            let mut cs = keys.clone(); cs.extend(used); cs.sort(); cs.dedup();
+            Some((Stmt { sql, plan, stratum, kind: "agg-spill", neutral: None }, cols_bytes(t, &cs)))
+        }
+        _ => None,
+    }
+}
+
+/// limits of the agg-spill strata: unlimited, one limit the input fits under, and two small ones (64 … 16384 bytes)
+fn spill_ladder(r: &mut Rng, bytes: usize) -> Vec<ExecCfg> {
+    let mut v = vec![ExecCfg::mem_batches()];
+    let small = [64usize, 200, 1024, 4096, 16384, (bytes / 3).clamp(64, 16384), (bytes / 12).clamp(64, 16384)];
+    let mut picks = vec![*r.pick(&small), *r.pick(&small)];
+    if r.chance(1, 2) { picks.push(bytes * 8); }
+    for l in picks { if !v.iter().any(|c: &ExecCfg| c.mem_limit == Some(l)) { v.push(ExecCfg::mem_batches().with_limit(l)); } }
+    v
+}
+
 fn make_case(cat: &Catalog, s: &Stmt, cfgs: &[ExecCfg], bytes: usize, batches: usize) -> Value {
     // which spill regime each limit aims at (estimated from the input size: the engine does not expose its run count)
     let mut tags: Vec<String> = vec![];
@@ -174,10 +288,21 @@ fn make_case(cat: &Catalog, s: &Stmt, cfgs: &[ExecCfg], bytes: usize, batches: u
     c
 }
 
+/// the engine creates <TMPDIR>/query_engine_spill (ExecutionConfig::ensure_spill_dir) only when an operator takes its spill path: remove it before a run,
+/// look for it afterwards.  In the agg-spill statements the only spillable operator is the aggregation (no join, no sort).
+fn spill_root() -> std::path::PathBuf { std::env::temp_dir().join("query_engine_spill") }
+
 pub fn run_case(c: &Value) -> Value {
     let cat = Catalog::from_case(c);
     let cfgs: Vec<ExecCfg> = c["cfgs"].as_array().map(|a| a.iter().filter_map(|x| x.as_str().and_then(ExecCfg::parse)).collect()).unwrap_or_default();
-    let mut out = run_many(&cat, c["sql"].as_str().unwrap_or(""), &cfgs);
+    let sql = c["sql"].as_str().unwrap_or("");
+    let (mut runs, mut spilled) = (serde_json::Map::new(), serde_json::Map::new());
+    for cfg in &cfgs {
+        let _ = std::fs::remove_dir_all(spill_root());
+        runs.insert(cfg.name.clone(), run(&cat, sql, cfg));
+        spilled.insert(cfg.name.clone(), json!(spill_root().exists()));
+    }
+    let mut out = json!({"runs": Value::Object(runs), "spilled": Value::Object(spilled)});
     if let Some(nsql) = c["neutral_sql"].as_str() {
         let lim: Vec<ExecCfg> = cfgs.iter().filter(|c| c.mem_limit.is_some()).cloned().collect();
         out["neutral"] = run_many(&cat, nsql, &lim)["runs"].clone();
@@ -187,20 +312,35 @@ pub fn run_case(c: &Value) -> Value {
 
 pub fn main(o: &Opts) {
     // the engine's default spill directory is std::env::temp_dir(): keep it under the scratch directory of this run
-    if let Ok(s) = std::env::var("IQE_SCRATCH") { let d = std::path::Path::new(&s).join("spill-tmp"); let _ = std::fs::create_dir_all(&d); std::env::set_var("TMPDIR", &d); }
+    // (always a private directory: run_case removes <TMPDIR>/query_engine_spill before every run)
+    let base = std::env::var("IQE_SCRATCH").unwrap_or_else(|_| "/verif/harness/scratch/manual".into());
+    let d = std::path::Path::new(&base).join(format!("spill-tmp-{}", std::process::id())); let _ = std::fs::create_dir_all(&d); std::env::set_var("TMPDIR", &d);
     if let Some(p) = &o.replay { for c in replay_cases(p) { let i = run_case(&c); emit(c, i); } return; }
     let mut r = Rng::new(o.seed ^ 0xC08);
     let mut copts = CatOpts::default();
     copts.max_tables = 2; copts.max_cols = 4; copts.max_batches = 14;
     copts.sizes = vec!["small".into(), "mid".into(), "mid".into()];
     copts.shared_names = false;
-    let strata = ["sort_clean", "sort_offset", "sort_f1", "sort_f2", "sort_f3", "sort_clean", "join_inner", "join_inner", "join_outer", "join_f5", "agg", "agg", "agg_nullkeys"];
+    let strata = ["sort_clean", "sort_offset", "sort_f1", "sort_f2", "sort_f3", "sort_clean", "join_inner", "join_inner", "join_outer", "join_f5", "agg", "agg", "agg_nullkeys",
+                  "spill_distinct", "spill_union", "spill_cdist", "spill_groups", "spill_cdist", "spill_distinct"];
+    let strata: Vec<&'static str> = match o.get("only") { Some(p) => strata.iter().cloned().filter(|s| s.starts_with(p)).collect(), None => strata.to_vec() };
+    let mut scat = spill_catalog(&mut r);
     let mut cat = gen_catalog(&mut r, &copts);
     let (mut n, mut attempts) = (0usize, 0usize);
     while n < o.cases && attempts < o.cases * 6 + 20 {
         if attempts % 5 == 0 { cat = gen_catalog(&mut r, &copts); if cat.tables.len() < 2 { let t = cat.tables[0].clone(); let mut t2 = t.clone(); t2.name = "t1".into(); for c in t2.cols.iter_mut() { c.name = format!("{}x", c.name); } cat.tables.push(t2); } }
         let stratum = strata[attempts % strata.len()];
         attempts += 1;
+        if stratum.starts_with("spill_") {
+            if attempts % 3 == 0 { scat = spill_catalog(&mut r); }
+            let Some((stmt, bytes)) = aggspill_stmt(&mut r, &scat, stratum) else { continue };
+            let cfgs = spill_ladder(&mut r, bytes);
+            let case = make_case(&scat, &stmt, &cfgs, bytes, scat.tables[0].cuts.len().max(1));
+            let imp = run_case(&case);
+            emit(case, imp);
+            n += 1;
+            continue;
+        }
         let stmt = match stratum {
             s if s.starts_with("sort") => sort_stmt(&mut r, &cat.tables[0], s),
             s if s.starts_with("join") => join_stmt(&mut r, &cat, s),
